@@ -200,7 +200,7 @@ def _box_ray(draw, n):
 
 def _options(draw, ncell):
     """how the object is built and used: construction path, integrator options, argument forms, re-use, caller-owned data."""
-    forms = ["c64", "c64", "i32", "f64", "strided"] + ([] if is_open(FORTRAN) else ["fortran", "fortran"])
+    forms = ["c64", "c64", "i32", "f64", "strided", "fortran", "fortran"]
     reuse = []
     for _ in range(draw(st.integers(0, 2))):
         what = draw(st.sampled_from(["vox", "vox", "step", "ms"]))
@@ -210,10 +210,12 @@ def _options(draw, ncell):
             reuse.append({"step": draw(st.sampled_from(STEPS[1:]))})
         else:
             reuse.append({"ms": draw(st.sampled_from([2, 3, 7, 40]))})
-    return {"build": draw(st.sampled_from(["object", "object", "emitter"])),
+    form = draw(st.sampled_from(forms))
+    known = {"form_map": "c64"} if (form == "fortran" and is_open(FORTRAN)) else {}   # known finding: masks only get this layout
+    return {"build": draw(st.sampled_from(["object", "object", "emitter"])), **known,
             "integ": draw(st.sampled_from(["plain", "plain", "rt.step", "integrator.step", "new"])),
             "ms": draw(st.sampled_from(MIN_SAMPLES)), "numerical": draw(st.integers(0, 7)) == 0,
-            "form": draw(st.sampled_from(forms)), "scalars": draw(st.sampled_from(["float", "float", "int", "numpy"])),
+            "form": form, "scalars": draw(st.sampled_from(["float", "float", "int", "numpy"])),
             "reuse": reuse, "poke": draw(st.booleans())}
 
 
@@ -592,7 +594,10 @@ def run(case, ctx):
     grid, args, step = _geometry(case)
     shape = grid.shape
     vm, mask, vmap = _voxel_arrays(case, shape)
-    mask_f, vmap_f = _form(mask, opt["form"]), _form(vmap, opt["form"])
+    fmap = opt.get("form_map", opt["form"])
+    mask_f, vmap_f = _form(mask, opt["form"]), _form(vmap, fmap)
+    if "form_map" in opt and vmap is not None:
+        ctx.label("excluded_known")
     snap = None if (vmap_f if vmap_f is not None else mask_f) is None else np.array(vmap_f if vmap_f is not None else mask_f)
     nbins = int(vm.max()) + 1
     ms, scheme = opt["ms"], ("trapezium" if opt["numerical"] else "midpoint")
@@ -621,7 +626,7 @@ def run(case, ctx):
     ctx.label(kind, "map:" + (vox.get("sub") or vox["kind"]), "via:" + case["via"], "step:" + ("default" if case["step"] is None else "%g" % case["step"]),
               "build:" + opt["build"], "integ:" + opt["integ"], "ms:%d" % ms, "scheme:" + scheme, "scalars:" + opt["scalars"])
     if vox["kind"] != "none":
-        ctx.label("form:" + opt["form"])
+        ctx.label("form:" + (opt["form"] if vmap is None else fmap))
     if kind == "cyl":
         if shape[1] == 1:
             ctx.label("axisymmetric")
@@ -693,7 +698,7 @@ def run(case, ctx):
         with ctx.cut("reconfigure"):
             if "vox" in chg:
                 vm2, m2, v2 = _voxel_arrays(dict(case, vox=chg["vox"]), shape)
-                _apply_vox(rt, _form(m2, opt["form"]), _form(v2, opt["form"]))
+                _apply_vox(rt, _form(m2, opt["form"]), _form(v2, fmap))
                 ctx.label("reuse:" + ("voxel_map" if v2 is not None else "mask"))
             elif "step" in chg:
                 step2 = chg["step"] * cells
